@@ -19,7 +19,9 @@ from .. import core, rig
 
 ID = "C19"
 
-PRIV = ["getpwnam", "getgrnam", "chroot", "chdir", "setgroups", "setregid", "setreuid"]
+PRIV = ["getpwnam", "getgrnam", "chroot", "chdir", "setgroups", "setregid", "setreuid", "setresgid", "setresuid", "setgid", "setuid", "initgroups", "fchdir"]
+TRUE_SPELLINGS = ["yes", "on", "true", "1", "Yes", "ON", "True"]
+FALSE_SPELLINGS = ["no", "off", "false", "0", "No", "OFF"]
 ENV = ["server_bind", "load_cert_chain"]
 UID, GID = 4242, 4343
 
@@ -49,7 +51,10 @@ class Recorder:
             raise PermissionError(1, "injected: operation not permitted")
 
 
-def run_startup(mode, usechroot, setuid, setgid, tls, fail_at, detach=False, euid=0):
+CWDS = {"elsewhere": "/srv/other/place", "sibling-prefix": "{docroot}-private", "inside": "{docroot}/sub", "root": "{docroot}", "parent": "{parent}"}
+
+
+def run_startup(mode, usechroot, setuid, setgid, tls, fail_at, detach=False, euid=0, spelling=None, cwd="elsewhere"):
     """-> (trace, outcome, final root, server-returned?)"""
     import grp
     import pwd
@@ -75,6 +80,10 @@ def run_startup(mode, usechroot, setuid, setgid, tls, fail_at, detach=False, eui
             patch(os, extra, (lambda n: (lambda *a: rec.call(n, *a)))(extra))
     patch(os, "setpgrp", lambda: rec.call("setpgrp"))
     patch(os, "fork", lambda: (rec.call("fork"), 0)[1])  # detach: we are the child
+    docroot0 = os.path.join(root, "docroot")
+    cwd_path = CWDS[cwd].format(docroot=docroot0, parent=root)
+    patch(os, "getcwd", lambda: cwd_path)
+    patch(os, "getcwdb", lambda: os.fsencode(cwd_path))
     patch(os, "geteuid", lambda: euid)
     patch(os, "getuid", lambda: euid)
     patch(pwd, "getpwnam", lambda n: (rec.call("getpwnam", n), ("x", "x", UID, GID, "", "/", "/bin/false"))[1])
@@ -120,7 +129,7 @@ def run_startup(mode, usechroot, setuid, setgid, tls, fail_at, detach=False, eui
         c.set("pygopherd", "servertype", "ThreadingTCPServer")
         c.set("pygopherd", "detach", "yes" if detach else "no")
         c.set("pygopherd", "pidfile", os.path.join(root, "pid"))
-        c.set("pygopherd", "usechroot", "yes" if usechroot else "no")
+        c.set("pygopherd", "usechroot", spelling if spelling is not None else ("yes" if usechroot else "no"))
         c.set("logger", "logmethod", "none")
         if setuid:
             c.set("pygopherd", "setuid", "gopheruser")
@@ -164,7 +173,7 @@ def run_startup(mode, usechroot, setuid, setgid, tls, fail_at, detach=False, eui
 DROP = {"chroot", "setgroups", "setregid", "setreuid", "setgid", "setuid", "setresgid", "setresuid", "setegid", "seteuid", "initgroups"}
 
 
-def judge(mode, usechroot, setuid, setgid, tls, fail_at, trace, outcome, final_root, got_server, docroot):
+def judge(mode, usechroot, setuid, setgid, tls, fail_at, trace, outcome, final_root, got_server, docroot, cwd="elsewhere"):
     bad = []
     names = [t[0] for t in trace]
     raised = [t[1] for t in trace if t[0] == "RAISED"]
@@ -215,6 +224,8 @@ def judge(mode, usechroot, setuid, setgid, tls, fail_at, trace, outcome, final_r
                         inside = str(t[1]).startswith("/")
                 elif t[0] == "chroot":
                     pass
+            if not inside and cwd in ("inside", "root") and not any(t[0] == "chdir" for t in trace):
+                inside = True  # it never left the tree that became the new root
             if not inside:
                 bad.append(("cwd-outside-chroot", "no chdir into the new root around chroot(): the working directory stays outside it (%r)" % names))
     else:
@@ -224,23 +235,32 @@ def judge(mode, usechroot, setuid, setgid, tls, fail_at, trace, outcome, final_r
     if want_groups:
         if "setgroups" not in names or trace[idx("setgroups")][1] != ():
             bad.append(("groups-not-cleared", "supplementary groups not cleared: %r" % (trace,)))
+    # any call that changes real, effective AND saved id at once counts (set*id as root, setre*id, setres*id)
+    GCALLS, UCALLS = ("setregid", "setresgid", "setgid"), ("setreuid", "setresuid", "setuid")
+
+    def full_change(calls, want):
+        for i, t in enumerate(trace):
+            if t[0] in calls and len(t) > 1 and all(a == want for a in t[1:]):
+                return i
+        return None
+
+    g = full_change(GCALLS, GID)
     if setgid:
-        g = idx("setregid")
-        if g is None or trace[g][1:] != (GID, GID):
+        if g is None:
             bad.append(("gid-not-set", "group not changed to %d: %r" % (GID, trace)))
         elif idx("setgroups") is not None and idx("setgroups") > g:
-            bad.append(("groups-after-gid", "setgroups after setregid: %r" % names))
-    elif "setregid" in names or "setgid" in names:
+            bad.append(("groups-after-gid", "setgroups after the group change: %r" % names))
+    elif any(n in names for n in GCALLS + ("setegid",)):
         bad.append(("unconfigured-gid", "group changed although setgid is not configured"))
     if setuid:
-        u = idx("setreuid")
-        if u is None or trace[u][1:] != (UID, UID):
+        u = full_change(UCALLS, UID)
+        if u is None:
             bad.append(("uid-not-set", "user not changed to %d: %r" % (UID, trace)))
         else:
-            for n in ("setregid", "setgroups", "chroot"):
+            for n in GCALLS + ("setgroups", "chroot"):
                 if idx(n) is not None and idx(n) > u:
-                    bad.append(("uid-before-" + n, "%s after setreuid (no longer permitted once the user is changed): %r" % (n, names)))
-    elif "setreuid" in names or "setuid" in names:
+                    bad.append(("uid-before-" + n, "%s after the user change (no longer permitted once the user is changed): %r" % (n, names)))
+    elif any(n in names for n in UCALLS + ("seteuid",)):
         bad.append(("unconfigured-uid", "user changed although setuid is not configured"))
     if mode == "initialize" and not got_server:
         bad.append(("no-server", "start-up succeeded but returned no server"))
@@ -254,18 +274,26 @@ def _cases():
             for tls in ((False,) if mode == "security" else (False, True)):
                 for detach in ((False,) if mode == "security" else (False, True)):
                     for euid in (0, 1000):
-                        out.append((mode, usechroot, setuid, setgid, tls, detach, euid))
+                        out.append((mode, usechroot, setuid, setgid, tls, detach, euid, None, "elsewhere"))
+    # every spelling of a boolean the configuration format accepts, and every place start-up may be launched from
+    for setuid, setgid in itertools.product((False, True), repeat=2):
+        for sp in TRUE_SPELLINGS + FALSE_SPELLINGS:
+            out.append(("security", sp in TRUE_SPELLINGS, setuid, setgid, False, False, 0, sp, "elsewhere"))
+        out.append(("initialize", True, setuid, setgid, False, False, 0, "on", "elsewhere"))
+        for cwd in CWDS:
+            for mode, detach in (("security", False), ("initialize", False), ("initialize", True)):
+                out.append((mode, True, setuid, setgid, False, detach, 0, None, cwd))
     return out
 
 
 def _shard(shard, seed, tier):
     part = core.Partial()
-    for mode, usechroot, setuid, setgid, tls, detach, euid in shard:
-        trace, outcome, final_root, got, docroot = run_startup(mode, usechroot, setuid, setgid, tls, None, detach, euid)
+    for mode, usechroot, setuid, setgid, tls, detach, euid, spelling, cwd in shard:
+        trace, outcome, final_root, got, docroot = run_startup(mode, usechroot, setuid, setgid, tls, None, detach, euid, spelling, cwd)
         names = [t[0] for t in trace]
         faults = [None]
         seen = {}
-        for n in names:
+        for n in (names if spelling is None and cwd == "elsewhere" else []):
             if n == "chdir" and not usechroot:
                 continue  # the chdir of a detaching daemon is no privileged step
             if n in PRIV or n in ENV:
@@ -274,29 +302,29 @@ def _shard(shard, seed, tier):
                 faults.append((n, k))
         for fa in faults:
             if fa is not None:
-                trace, outcome, final_root, got, docroot = run_startup(mode, usechroot, setuid, setgid, tls, fa, detach, euid)
-            bad = judge(mode, usechroot, setuid, setgid, tls, fa, trace, outcome, final_root, got, docroot)
+                trace, outcome, final_root, got, docroot = run_startup(mode, usechroot, setuid, setgid, tls, fa, detach, euid, spelling, cwd)
+            bad = judge(mode, usechroot, setuid, setgid, tls, fa, trace, outcome, final_root, got, docroot, cwd)
             part.evaluations += 1
             part.transitions += len(trace)
-            part.state(mode, usechroot, setuid, setgid, tls, fa, detach, euid)
-            part.outcome(mode, usechroot, setuid, setgid, tls, fa[0] if fa else None, tuple(b[0] for b in bad), detach, euid)
+            part.state(mode, usechroot, setuid, setgid, tls, fa, detach, euid, spelling, cwd)
+            part.outcome(mode, usechroot, setuid, setgid, tls, fa[0] if fa else None, tuple(b[0] for b in bad), detach, euid, spelling, cwd)
             part.sample({"mode": mode, "usechroot": usechroot, "setuid": setuid, "setgid": setgid, "tls": tls, "fault": fa, "trace": [list(map(str, t)) for t in trace]}, limit=2)
             for cls, det in bad:
-                part.violation("%s|chroot=%d|uid=%d|gid=%d|tls=%d|detach=%d|euid=%d|fault=%s|%s" % (mode, usechroot, setuid, setgid, tls, detach, euid, "%s#%d" % fa if fa else "none", cls), det,
-                               {"mode": mode, "usechroot": usechroot, "setuid": setuid, "setgid": setgid, "tls": tls, "fault": list(fa) if fa else None, "detach": detach, "euid": euid})
+                part.violation("%s|chroot=%d|uid=%d|gid=%d|tls=%d|detach=%d|euid=%d|spelling=%s|cwd=%s|fault=%s|%s" % (mode, usechroot, setuid, setgid, tls, detach, euid, spelling, cwd, "%s#%d" % fa if fa else "none", cls), det,
+                               {"mode": mode, "usechroot": usechroot, "setuid": setuid, "setgid": setgid, "tls": tls, "fault": list(fa) if fa else None, "detach": detach, "euid": euid, "spelling": spelling, "cwd": cwd})
     return part
 
 
 def replay(case):
     fa = tuple(case["fault"]) if case["fault"] else None
-    trace, outcome, final_root, got, docroot = run_startup(case["mode"], case["usechroot"], case["setuid"], case["setgid"], case["tls"], fa, case.get("detach", False), case.get("euid", 0))
-    bad = judge(case["mode"], case["usechroot"], case["setuid"], case["setgid"], case["tls"], fa, trace, outcome, final_root, got, docroot)
+    trace, outcome, final_root, got, docroot = run_startup(case["mode"], case["usechroot"], case["setuid"], case["setgid"], case["tls"], fa, case.get("detach", False), case.get("euid", 0), case.get("spelling"), case.get("cwd", "elsewhere"))
+    bad = judge(case["mode"], case["usechroot"], case["setuid"], case["setgid"], case["tls"], fa, trace, outcome, final_root, got, docroot, case.get("cwd", "elsewhere"))
     return bad[0] if bad else None
 
 
 def run(ck):
     ck.pmap(_shard, core.chunks(_cases(), core.NPROC))
-    ck.rule = ("all 8 combinations of usechroot/setuid/setgid x {init_security alone; initialize() with TLS off and on} x {no fault, each occurrence of each privileged call (getpwnam, getgrnam, chroot, chdir, setgroups, setregid, setreuid) "
+    ck.rule = ("every accepted spelling of the usechroot boolean and five start directories (elsewhere, a sibling whose name starts like the root's, inside the root, the root, its parent) without faults; all 8 combinations of usechroot/setuid/setgid x {init_security alone; initialize() with TLS off and on} x {no fault, each occurrence of each privileged call (getpwnam, getgrnam, chroot, chdir, setgroups, setregid, setreuid) "
                "and of bind / certificate load raising}; the recorded call trace is judged by a reference model of the required order; distinct = (configuration, fault, verdict)")
     ck.bounds = {"configurations": len(_cases())}
     ck.assumptions = ["privileged entry points are substituted by recorders (nothing privileged is really executed); the working directory is simulated from the recorded chdir/chroot calls",
